@@ -84,7 +84,8 @@ def audit(prop, tier):
         res['failed'] = ['no theorem registered for %s' % prop]
         res['obligations'] = 1
         return res
-    module = ent['module']
+    modules = ent.get('modules') or [ent['module']]
+    module = ' '.join(modules)
     thms = ent['theorems']
     res['obligations'] = len(thms)
     res['theorems'] = thms
@@ -94,7 +95,7 @@ def audit(prop, tier):
     lock = _lock()
     try:
         try:
-            b = subprocess.run(['lake', 'build', module, 'qsdriver'], cwd=LEAN_DIR, capture_output=True, text=True, timeout=1500)
+            b = subprocess.run(['lake', 'build'] + modules + ['qsdriver'], cwd=LEAN_DIR, capture_output=True, text=True, timeout=1500)
         except subprocess.TimeoutExpired:
             raise Infra('lake build timed out')
         if b.returncode != 0:
@@ -102,7 +103,8 @@ def audit(prop, tier):
             res['failed'] = ['module %s does not build' % module]
             return res
         with tempfile.NamedTemporaryFile('w', suffix='.lean', delete=False, dir=os.path.join(LEAN_DIR, '.lake')) as f:
-            f.write('import %s\n' % module)
+            for m_ in modules:
+                f.write('import %s\n' % m_)
             for t in thms:
                 f.write('#print axioms %s\n' % t)
             tmp = f.name
@@ -139,7 +141,7 @@ def audit(prop, tier):
             res['discharged'] = 0
         if tier == 'thorough' and not res['failed']:
             try:
-                c = subprocess.run(['lake', 'env', 'leanchecker', module], cwd=LEAN_DIR, capture_output=True, text=True, timeout=1500)
+                c = subprocess.run(['lake', 'env', 'leanchecker'] + modules, cwd=LEAN_DIR, capture_output=True, text=True, timeout=1500)
             except subprocess.TimeoutExpired:
                 raise Infra('leanchecker timed out')
             res['checker_cmd'] += ' && lake env leanchecker %s' % module
